@@ -1,0 +1,11 @@
+//go:build !verif
+
+package lang
+
+// Verification hooks (build tag "verif"). With the tag off these are empty
+// and inline away.
+
+func verifEmit(ev string, a, b int, s string)         {}
+func verifBool(ev string, b bool)                     {}
+func verifStep()                                      {}
+func verifRule(e *Evaluator, kind string, rule *Rule) {}
